@@ -121,17 +121,22 @@ fn main() {
         }
         let _ = std::fs::write(path, format!("{}", total));
     } else if mode == "dup512" {
-        // read 512 bytes at a time and write every block twice (output outgrows input)
+        // read 512 bytes at a time and write every block twice (output outgrows input);
+        // raw system calls: std's stdin would read 8 KiB at once
         let mut buf = [0u8; 512];
-        let mut i = std::io::stdin();
-        let mut o = std::io::stdout();
-        loop {
-            match i.read(&mut buf) {
-                Ok(0) | Err(_) => break,
-                Ok(n) => {
-                    if o.write_all(&buf[..n]).is_err() || o.write_all(&buf[..n]).is_err() {
-                        break;
+        'outer: loop {
+            let n = unsafe { libc::read(0, buf.as_mut_ptr() as *mut libc::c_void, 512) };
+            if n <= 0 {
+                break;
+            }
+            for _ in 0..2 {
+                let mut off = 0isize;
+                while off < n {
+                    let w = unsafe { libc::write(1, buf.as_ptr().offset(off) as *const libc::c_void, (n - off) as usize) };
+                    if w <= 0 {
+                        break 'outer;
                     }
+                    off += w;
                 }
             }
         }
